@@ -22,8 +22,9 @@ RULE = (
     "fingerprints of the template and of every input frame (values, dtypes, index, column order) are equal before and after; every backtest's full history equals the history of a "
     "lone backtest of a fresh template (RNG seeded identically before each run) whatever the order and siblings; a second run() changes nothing and calls no algo. "
     "hashseed: the same spec executed in fresh interpreter processes with PYTHONHASHSEED 0, 1, 2 and random gives bit-identical histories. "
+    "hashseed_limitdeltas: dated targets that shrink from many names to a few under LimitDeltas with commissions (several held names get their wind-down weight in one call), same comparison across hash seeds. "
     "twodata: one template run over two data sets (same tickers and dates, different prices) in generated orders within one process; each run equals a lone run of that data in a fresh process. "
-    "benchmark: benchmark_random(backtest, template, nsim) builds nsim backtests from the template it is handed: template and data fingerprints unchanged, nsim distinct random results. "
+    "benchmark: benchmark_random(backtest, template, nsim) builds nsim backtests from the template it is handed: template and data fingerprints unchanged (functions by identity, bound methods with their owner), the template's commission function answers as before although the benchmarked backtest pays commissions, nsim distinct random results. "
     "non-trivial = at least two backtests from one template with a stateful or RNG algo (template) / a declared-children or RNG spec across >= 3 hash seeds (hashseed). distinct = distinct spec hashes."
 )
 ASSUMPTIONS = ["random and numpy.random are seeded from the spec immediately before each run (the statement's 'with the random seeds fixed')"]
@@ -60,6 +61,14 @@ def fp(obj, seen=None, depth=0):
         return ("set", sorted(repr(x) for x in obj))
     if callable(obj) and not hasattr(obj, "__dict__"):
         return ("fn", getattr(obj, "__name__", "?"))
+    import types
+
+    if isinstance(obj, types.MethodType):
+        # a bound method is the function and the object it is bound to (a strategy's default commission function is bound to that strategy)
+        return ("method", getattr(obj.__func__, "__qualname__", "?"), fp(obj.__self__, seen, depth + 1))
+    if isinstance(obj, (types.FunctionType, types.BuiltinFunctionType)):
+        # functions are copied by reference (also by deepcopy): identity is what can be compared within one process
+        return ("function", getattr(obj, "__module__", "?"), getattr(obj, "__qualname__", "?"), id(obj))
     d = getattr(obj, "__dict__", None)
     if d is None:
         return ("obj", type(obj).__name__, repr(obj)[:50])
@@ -250,7 +259,34 @@ def case_hashseed(ctx, spec):
             )
     labs = gen.spec_labels(base)
     declared = any(nd.get("children") for _, nd in gen.walk_nodes(base["tree"]))
-    return {"nontrivial": declared or any("Randomly" in l for l in labs), "labels": labs + (["declared_children"] if declared else [])}
+    return {"nontrivial": declared or any("Randomly" in l or l == "algo=LimitDeltas" for l in labs), "labels": labs + (["declared_children"] if declared else [])}
+
+
+@st.composite
+def hashseed_limitdeltas_spec(draw):
+    """LimitDeltas walks the union of the held children and the targets: when the targets shrink, several held names without a target get
+    theirs in one call. The order in which that happens must not depend on the interpreter's string hashing (Rebalance trades, and
+    commissions accumulate, in the order of temp['weights'])."""
+    nt = draw(st.integers(6, 14))
+    tickers = ["t%02d" % i for i in range(nt)]
+    ds = draw(gen.dates(8, 14, kinds=("bday", "daily")))
+    n = len(ds)
+    pr = {t: draw(gen.price_path(n, vol=0.02, decimals=4)) for t in tickers}
+    k = draw(st.integers(1, n - 3))
+    keep = draw(st.lists(st.sampled_from(tickers), min_size=1, max_size=3, unique=True))
+    cols = {t: [round(1.0 / nt, 6) if i < k else (round(1.0 / len(keep), 6) if t in keep else None) for i in range(n)] for t in tickers}
+    spec = {
+        "dates": ds,
+        "prices": pr,
+        "rng_seed": 0,
+        "frames": {"tw": {"kind": "frame", "cols": cols}},
+        "additional": ["tw"],
+        "integer_positions": draw(st.booleans()),
+        "initial_capital": 1e6,
+        "fee": {"kind": "fixed+prop", "f": draw(st.sampled_from([0.371, 1.3, 0.07])), "r": draw(st.sampled_from([0.00137, 0.0021, 0.00033]))},
+        "tree": {"name": "root", "kind": "Strategy", "algos": [["WeighTarget", {"frame": "tw", "by_name": True}], ["LimitDeltas", {"limit": draw(st.sampled_from([0.013, 0.05, 0.021]))}], ["Rebalance", {}]]},
+    }
+    return spec
 
 
 @st.composite
@@ -363,7 +399,10 @@ def case_benchmark(ctx, spec):
     tick = sorted(spec["prices"])
     template = bt.core.Strategy(spec["template_name"], [interp.mk_algo(bt, a, spec, frames) for a in spec["random_algos"]], children=list(tick) if spec["declare"] else None)
     base_s = bt.core.Strategy("base", [interp.mk_algo(bt, a, spec, frames) for a in spec["base_algos"]])
-    base_bt = bt.Backtest(base_s, data, progress_bar=False)
+    # the benchmarked backtest may pay commissions; the random template was never given any
+    fee = interp.Fee({"kind": "prop", "r": 0.001}) if spec["rng_seed"] % 2 == 0 else None
+    base_bt = bt.Backtest(base_s, data, progress_bar=False, commissions=fee)
+    probe_fee0 = [template.commission_fn(q, p_) for q, p_ in ((100.0, 10.0), (-5.0, 250.0))]
     fp_t0 = fp(template)
     fp_d0 = fp(data)
     interp.seed_rngs(spec)
@@ -376,14 +415,17 @@ def case_benchmark(ctx, spec):
         raise Violation("benchmark_random modified the strategy template it was given (name %r -> %r)" % (spec["template_name"], template.name), signature="c11:template-mutated:benchmark_random")
     if fp(data) != fp_d0:
         raise Violation("benchmark_random modified the input data", signature="c11:data-mutated:benchmark_random")
+    probe_fee1 = [template.commission_fn(q, p_) for q, p_ in ((100.0, 10.0), (-5.0, 250.0))]
+    if probe_fee1 != probe_fee0:
+        raise Violation("after benchmark_random the template charges commissions %s where it charged %s before (the benchmarked backtest pays %s)" % (probe_fee1, probe_fee0, "0.1%" if fee else "nothing"), signature="c11:template-mutated:benchmark_random:commission")
     names = [k for k in res.backtests if k != base_bt.name]
     if len(names) != spec["nsim"]:
         raise Violation("benchmark_random(nsim=%d) reports %d random backtests: %s" % (spec["nsim"], len(names), names), signature="c11:benchmark-count")
-    return {"nontrivial": spec["nsim"] >= 2, "labels": ["nsim=%d" % spec["nsim"]]}
+    return {"nontrivial": spec["nsim"] >= 2, "labels": ["nsim=%d" % spec["nsim"]] + (["benchmarked_backtest_pays_commissions"] if fee else [])}
 
 
-SUBS = {"template": case_template, "hashseed": case_hashseed, "benchmark": case_benchmark, "twodata": case_twodata}
-STRATS = {"template": template_spec, "hashseed": hashseed_spec, "benchmark": benchmark_spec, "twodata": twodata_spec}
+SUBS = {"template": case_template, "hashseed": case_hashseed, "benchmark": case_benchmark, "twodata": case_twodata, "hashseed_limitdeltas": case_hashseed}
+STRATS = {"template": template_spec, "hashseed": hashseed_spec, "benchmark": benchmark_spec, "twodata": twodata_spec, "hashseed_limitdeltas": hashseed_limitdeltas_spec}
 
 
 def shard(ctx):
@@ -391,3 +433,4 @@ def shard(ctx):
     run_sub(ctx, "hashseed", hashseed_spec(), lambda s: case_hashseed(ctx, s), ctx.n(32, 400))
     run_sub(ctx, "benchmark", benchmark_spec(), lambda s: case_benchmark(ctx, s), ctx.n(160, 2000))
     run_sub(ctx, "twodata", twodata_spec(), lambda s: case_twodata(ctx, s), ctx.n(48, 600))
+    run_sub(ctx, "hashseed_limitdeltas", hashseed_limitdeltas_spec(), lambda s: case_hashseed(ctx, s), ctx.n(48, 600))
